@@ -90,7 +90,10 @@ def _work(args):
                     ("bom-utf16-truncated", b"\xff\xfe" + sample.encode("utf-16-le")[:-1]),
                     ("bom-utf16-surrogate", b"\xff\xfe\x00\xd8x\x00\n\x00"), ("bom-utf16-odd", b"\xfe\xff\x80\x81\x82"),
                     ("bom-utf8", b"\xef\xbb\xbf" + sample.encode()), ("bom-utf8-truncated", b"\xef\xbb"),
-                    ("bom-utf32", b"\xff\xfe\x00\x00" + sample.encode("utf-32-le")[:-3]), ("nul-bytes", sample.encode() + b"\x00\x00\x00")]
+                    ("bom-utf32", b"\xff\xfe\x00\x00" + sample.encode("utf-32-le")[:-3]), ("nul-bytes", sample.encode() + b"\x00\x00\x00"),
+                    # valid UTF-8 (plain ASCII) for more than 8 KiB, then one byte that is not: how a file is decoded must not be
+                    # decided from its first block (seeded change C03-20)
+                    ("late-non-utf8", sample.encode() * 1500 + lead + b"caf\xe9\n"), ("late-non-utf8", sample.encode() * 12000 + lead + b"\xff\n")]
     root = tempfile.mkdtemp(prefix=f"c03_{lang}_", dir=tmp)
     other = tempfile.mkdtemp(prefix="c03_other_", dir=tmp)
     sub = os.path.join(root, "pkg")
@@ -185,6 +188,19 @@ def _work(args):
                      ("the working directory itself, with links", w, ["."]),
                      ("linked directory whose target lies outside", w, ["linked"]),
                      ("file below a linked directory", w, [os.path.join("linked", base)])]
+            # a directory whose name reads like console markup, holding a function long enough to be LISTED (the path is printed):
+            # names are data, not markup (seeded change C03-19)
+            mk = tempfile.mkdtemp(prefix="c03_mk_", dir=tmp)
+            body_py = "def long_one():\n" + "    x = 1\n" * 34
+            body_br = "function long_one() {\n" + "  x = 1;\n" * 33 + "}\n"
+            for dn in ("old[", "[bold]x", "a[/]b"):
+                sub_d = os.path.join(mk, dn, "v1]")
+                os.makedirs(sub_d)
+                with open(os.path.join(sub_d, "big." + ("py" if lang == "Python" else "js")), "w") as f:
+                    f.write(body_py if lang == "Python" else body_br)
+            ways += [("directory whose name reads like console markup", mk, ["."]),
+                     ("file below such a directory", mk, [os.path.join("old[", "v1]", "big." + ("py" if lang == "Python" else "js"))]),
+                     ("absolute path through such a directory", other, [os.path.join(mk, "[bold]x", "v1]")])]
         for way, cwd, argv in ways:
             try:
                 code = timed(lambda: run_check_command(cwd, argv), 60)
